@@ -306,6 +306,8 @@ impl<'p> CoroutinePool<'p> {
             self.notify(task_id);
             return Ok(r);
         }
+        #[cfg(open_coroutine_verif)]
+        crate::common::verif::pause("pool_wait_between_check_and_register");
         if SchedulableCoroutine::current().is_some() {
             let timeout_time = get_timeout_time(wait_time);
             loop {
@@ -422,7 +424,21 @@ impl<'p> CoroutinePool<'p> {
     fn try_run(&self) -> Option<()> {
         self.task_queue.pop().map(|task| {
             let task_id = task.id();
+            #[cfg(open_coroutine_verif)]
+            let verif_task_name = task.name().to_string();
+            #[cfg(open_coroutine_verif)]
+            crate::common::verif::emit(|| {
+                format!(
+                    r#""ev":"task_pop","task":{:?},"pool":{:?}"#,
+                    verif_task_name,
+                    self.name()
+                )
+            });
             if CANCEL_TASKS.contains(&task_id) {
+                #[cfg(open_coroutine_verif)]
+                crate::common::verif::emit(|| {
+                    format!(r#""ev":"task_skip","task":{:?},"pool":{:?}"#, verif_task_name, self.name())
+                });
                 _ = CANCEL_TASKS.remove(&task_id);
                 warn!("Cancel task:{} successfully !", task_id);
                 return;
@@ -430,7 +446,25 @@ impl<'p> CoroutinePool<'p> {
             if let Some(co) = SchedulableCoroutine::current() {
                 _ = RUNNING_TASKS.insert(task_id, co.id);
             }
+            #[cfg(open_coroutine_verif)]
+            crate::common::verif::emit(|| {
+                format!(
+                    r#""ev":"task_run_b","task":{:?},"pool":{:?},"co":{}"#,
+                    verif_task_name,
+                    self.name(),
+                    SchedulableCoroutine::current().map_or(0, |co| co.id)
+                )
+            });
             let (_, result) = task.run();
+            #[cfg(open_coroutine_verif)]
+            crate::common::verif::emit(|| {
+                format!(
+                    r#""ev":"task_run_e","task":{:?},"pool":{:?},"ok":{}"#,
+                    verif_task_name,
+                    self.name(),
+                    result.is_ok()
+                )
+            });
             _ = RUNNING_TASKS.remove(&task_id);
             if self.no_waits.contains(&task_id) {
                 _ = self.no_waits.remove(&task_id);
@@ -440,6 +474,12 @@ impl<'p> CoroutinePool<'p> {
                 self.results.insert(task_id, result).is_none(),
                 "The previous result was not retrieved in a timely manner"
             );
+            #[cfg(open_coroutine_verif)]
+            crate::common::verif::emit(|| {
+                format!(r#""ev":"result_stored","task":{:?},"pool":{:?}"#, verif_task_name, self.name())
+            });
+            #[cfg(open_coroutine_verif)]
+            crate::common::verif::pause("pool_between_store_and_notify");
             self.notify(task_id);
         })
     }
